@@ -36,6 +36,9 @@ def kinds(nrec):
         'runtime_error': [('select a1, int(a2.split(";")[0])', poison0, None, None), ('select int(a2.split(";")[0]) * 2', poison1, None, None)],
         'parse_error': [("select a1 where a1 = 'k'", base0, None, None), ('select a1 limit many', base1, None, None)],
         'named': [('select a.name, a["val"]', base0, None, ['name', 'val']), ('select a.name, a["val"]', base1, None, ['val', 'name'])],
+        'named_missing': [('select a["val"], NR', base0, None, ['name', 'val']), ('select a["val"], NR', base1, None, ['name', 'other'])],
+        'numagg': [('select min(a2), max(a2), sum(a2), avg(a2), variance(a2), median(a2)', [[r[0], str(i + 1)] for i, r in enumerate(base0)], None, None),
+                   ('select min(a2), max(a2), sum(a2), avg(a2), variance(a2), median(a2)', [[r[0], i + 1.75] for i, r in enumerate(base1)], None, None)],
     }
     return K
 
@@ -178,6 +181,12 @@ def scenarios():
         ('select a.name, a["val"], a[\'val\']', [['k', '1'], ['m', '2']], None, ['val', 'name']),
         ('select avg(a2), variance(a2), a1 group by a1', Tn, None, None),
         ('select distinct count a1 order by a1 desc', T0, None, None),
+        ('select a["val"], NR', [['k', '1'], ['m', '2']], None, ['name', 'val']),
+        ('select a["val"], NR', [['k', '1'], ['m', '2']], None, ['name', 'other']),          # alone: No "val" field at record 1
+        ('select min(a2), max(a2), sum(a2), avg(a2), variance(a2), median(a2)', Tn, None, None),
+        ('select min(a2), max(a2), sum(a2), avg(a2), variance(a2), median(a2)', [['k', 1.5], ['m', 2.75], ['k', -4.25]], None, None),
+        ('select min(a2), max(a2), sum(a2), avg(a2), variance(a2), median(a2)', [['k', '0.5'], ['m', '2'], ['k', '2.25']], None, None),
+        ('select min(a2), max(a2), sum(a2), avg(a2), variance(a2), median(a2)', Ti, None, None),
     ]
 
 
@@ -309,7 +318,7 @@ def main(tier, seed):
                     shards.append({'part': 'threads', 'pair': [(i0, f0[ka]), (i1, f1[kb])], 'points': (n0, n1), 'lo': lo, 'hi': hi, 'bound': bound})
     S = scenarios()
     hfresh = fresh_outcomes(S)
-    depth = 6 if tier == 'thorough' else 4
+    depth = 5 if tier == 'thorough' else 3
     pre = 2
     shards.append({'part': 'history', 'prefix': [], 'depth': 0, 'fresh': hfresh, 'judge_prefix': False})
     for a in range(len(S)):
@@ -318,8 +327,8 @@ def main(tier, seed):
             shards.append({'part': 'history', 'prefix': [a, b], 'depth': depth - pre, 'fresh': hfresh, 'judge_prefix': True})
     res = core.run_shards('vf.checks.c16', shards)
     return core.finish(PID, tier, seed, res, t0,
-        rule='threads: all unordered pairs of 11 query kinds (same-kind pairs with different data) x every interleaving of their scheduling points (start, each get_record on input and join table, each write, finish) within the preemption bound, plan (records, bound) = %r; '
-             'histories: the complete tree of sequences of <= %d events over 13 scenarios, every node a forked live interpreter; states = interleavings + history nodes, transitions = baton grants + history edges; '
+        rule='threads: all unordered pairs of 13 query kinds (same-kind pairs with different data) x every interleaving of their scheduling points (start, each get_record on input and join table, each write, finish) within the preemption bound, plan (records, bound) = %r; '
+             'histories: the complete tree of sequences of <= %d events over 19 scenarios, every node a forked live interpreter; states = interleavings + history nodes, transitions = baton grants + history edges; '
              'non-trivial = schedules with >= 2 context switches / histories of length >= 1' % (plan, depth),
         assumptions=['scheduling points are exactly the points the property names; code between them runs atomically', 'the solo outcome is computed in a fresh python subprocess per query'],
         extra={'pairs': npairs, 'interleavings': total_interleavings, 'history_depth': depth, 'plan_records_and_preemption_bound': [[n, ('all' if b is None else b)] for n, b in plan]},
